@@ -1,5 +1,6 @@
 import Casm.Model.Assemble
 import Casm.Proofs.StaticEval
+import Casm.Proofs.ModeMono
 /-!
 # Casm.Proofs.StaticMatch — what `get_match_statically_known` promises
 
@@ -364,5 +365,147 @@ theorem resolve_static (st : Static) (defsM defs1 defs2 : Defs) (ctx1 ctx2 : RCt
                   simp only [hp', Bool.false_eq_true, if_false] at h ⊢
                   exact ihB fk rdi ri rest (i + 1) a1 _ _ p' r argCtx' hka2 (pinv.setLocal _ _ hnm) i2
                     (hrc.setParam _ v excerpt pinv.qf hnm) h hne
+
+/-! ## candidate lists and the chosen encoding -/
+
+def Resolution.definite : Resolution → Bool
+  | .unresolved => false
+  | _ => true
+
+theorem resolveMatches_static (st : Static) (defsM defs1 defs2 : Defs) (ctx1 ctx2 : RCtx) (rel : SRel defsM defs1 defs2 ctx1 ctx2)
+    (hpar : ParamsOK defsM) (fk : Nat) :
+    ∀ (f : Nat) (cands : List IMatch) (argCtx : ECtx) (acc rs : List Resolution) (argCtx' : ECtx),
+      (∀ c ∈ cands, matchKnown st.decls defsM ctx1.symCtx fk c = true) →
+      CtxInv (matchP0 st.decls defsM ctx1.symCtx) argCtx →
+      resolveMatches st defs1 f ctx1 cands argCtx acc = .ok (rs, argCtx') → rs.all Resolution.definite = true →
+      resolveMatches st defs2 f ctx2 cands argCtx acc = .ok (rs, argCtx') := by
+  intro f
+  induction f with
+  | zero => intro cands argCtx acc rs argCtx' _ _ h; simp [resolveMatches] at h
+  | succ f ih =>
+    intro cands argCtx acc rs argCtx' hk hinv h hdef
+    cases cands with
+    | nil => simp only [resolveMatches] at h ⊢; exact h
+    | cons m rest =>
+      simp only [resolveMatches] at h ⊢
+      cases hrm : resolveMatch st defs1 f ctx1 m argCtx with
+      | error e => rw [hrm] at h; cases h
+      | ok y =>
+        obtain ⟨v, a1⟩ := y
+        rw [hrm] at h
+        simp only at h
+        -- the resolution of this candidate
+        split at h
+        · cases h
+        · rename_i r hr
+          -- `r` ends up in `rs`, hence is definite, hence `v` is not unknown
+          have hmem : ∀ (f : Nat) (cands : List IMatch) (argCtx : ECtx) (acc rs : List Resolution) (argCtx' : ECtx),
+              resolveMatches st defs1 f ctx1 cands argCtx acc = .ok (rs, argCtx') → ∀ x ∈ acc, x ∈ rs := by
+            intro f
+            induction f with
+            | zero => intro cands argCtx acc rs argCtx' h; simp [resolveMatches] at h
+            | succ f ih2 =>
+              intro cands argCtx acc rs argCtx' h x hx
+              cases cands with
+              | nil =>
+                simp only [resolveMatches] at h
+                injection h with h; injection h with h1 _
+                rw [← h1]; exact List.mem_reverse.mpr hx
+              | cons m rest =>
+                simp only [resolveMatches] at h
+                split at h
+                · cases h
+                · split at h
+                  · cases h
+                  · exact ih2 _ _ _ _ _ h x (List.mem_cons_of_mem _ hx)
+          have hrdef : r.definite = true :=
+            List.all_eq_true.mp hdef r (hmem f rest a1 (r :: acc) rs argCtx' h r (List.mem_cons_self ..))
+          have hv : v.isUnk = false := by
+            cases v <;> first
+              | rfl
+              | (simp only at hr; injection hr with hr; rw [← hr] at hrdef; cases hrdef)
+          obtain ⟨e2, i2⟩ := (resolve_static st defsM defs1 defs2 ctx1 ctx2 rel hpar f).1 fk m argCtx v a1
+            (hk m (List.mem_cons_self ..)) hinv hrm hv
+          rw [e2]
+          simp only [hr]
+          exact ih rest a1 (r :: acc) rs argCtx' (fun c hc => hk c (List.mem_cons_of_mem _ hc)) i2 h hdef
+
+/-- **the frozen choice is the choice**: if every candidate is statically known and none is
+    unresolved, the list of candidates resolves in the later state to the same resolutions -/
+theorem allDefinite_static (st : Static) (defsM defs1 defs2 : Defs) (ctx1 ctx2 : RCtx) (rel : SRel defsM defs1 defs2 ctx1 ctx2)
+    (hpar : ParamsOK defsM) (fk : Nat) (cands : List IMatch)
+    (hk : ∀ c ∈ cands, matchKnown st.decls defsM ctx1.symCtx fk c = true)
+    (hd : allDefinite st defs1 ctx1 cands = true) :
+    ∃ rs a, resolveMatches st defs1 (evalFuel - 1) ctx1 cands {} [] = .ok (rs, a) ∧
+      resolveMatches st defs2 (evalFuel - 1) ctx2 cands {} [] = .ok (rs, a) ∧ rs.all Resolution.definite = true := by
+  unfold allDefinite at hd
+  cases h1 : resolveMatches st defs1 (evalFuel - 1) ctx1 cands {} [] with
+  | error e => rw [h1] at hd; cases hd
+  | ok x =>
+    obtain ⟨rs, a⟩ := x
+    rw [h1] at hd
+    have hdef : rs.all Resolution.definite = true := by
+      simp only at hd
+      rw [List.all_eq_true] at hd ⊢
+      intro r hr
+      have := hd r hr
+      cases r <;> first | rfl | cases this
+    refine ⟨rs, a, rfl, ?_, hdef⟩
+    exact resolveMatches_static st defsM defs1 defs2 ctx1 ctx2 rel hpar fk _ cands {} [] rs a hk
+      ⟨fun n _ => rfl, fun n l hl _ => by cases hl⟩ h1 hdef
+
+theorem chooseEncoding_single (g g' : Bool) (rs : List Resolution) (encs : List (Nat × BI)) (rep : List String)
+    (h : chooseEncoding g rs = (some encs, rep)) (hs : encs.length = 1) : chooseEncoding g' rs = (some encs, []) := by
+  unfold chooseEncoding at h ⊢
+  simp only at h ⊢
+  split at h
+  · split at h <;> cases h
+  · rename_i hne
+    simp only [hne, if_false]
+    split at h
+    · cases h
+    · injection h with h1 _
+      injection h1 with h1
+      rw [h1]
+      have : ¬ (!g' && decide (encs.length > 1)) = true := by simp [hs]
+      rw [if_neg this]
+      simp
+
+/-- **soundness of the first-pass short-cut for instructions**: when every candidate is
+    statically known, none is unresolved and a single smallest encoding was chosen, then resolving
+    the candidates in any later related state — at another address, guessing allowed or not —
+    chooses the same encoding -/
+theorem frozen_instruction_sound (st : Static) (defsM defs1 defs2 : Defs) (ctx1 ctx2 : RCtx) (rel : SRel defsM defs1 defs2 ctx1 ctx2)
+    (hpar : ParamsOK defsM) (fk : Nat) (cands : List IMatch)
+    (hk : ∀ c ∈ cands, matchKnown st.decls defsM ctx1.symCtx fk c = true)
+    (hd : allDefinite st defs1 ctx1 cands = true)
+    (encs : List (Nat × BI)) (rep : List String)
+    (h1 : resolveEncoding st defs1 evalFuel ctx1 cands {} = .ok (some encs, rep)) (hs : encs.length = 1) :
+    resolveEncoding st defs2 evalFuel ctx2 cands {} = .ok (some encs, []) := by
+  obtain ⟨rs, a, e1, e2, _⟩ := allDefinite_static st defsM defs1 defs2 ctx1 ctx2 rel hpar fk cands hk hd
+  rw [evalFuel_succ'] at h1 ⊢
+  simp only [resolveEncoding, e1, e2] at h1 ⊢
+  injection h1 with h1
+  rw [chooseEncoding_single _ ctx2.canGuess rs encs rep h1 hs]
+
+/-! ## data elements and constants: no state at all -/
+
+/-- the provider of `defs/data_block.rs` and `defs/symbol.rs`: no variable is known -/
+def pureP : SKProvider := { queryFunction := asmBuiltinKnown }
+
+/-- **a statically known data element or constant evaluates identically in every state, at every
+    address, in every pass** (value, error text and context) -/
+theorem pure_static_eval (st : Static) (defs1 defs2 : Defs) (ctx1 ctx2 : RCtx) (e : Expr)
+    (hk : staticallyKnown pureP e = true) :
+    resolverEval st defs2 ctx2 {} e = resolverEval st defs1 ctx1 {} e := by
+  unfold resolverEval
+  have ag : Agree pureP (mkEnv st defs1 evalFuel ctx1) (mkEnv st defs2 evalFuel ctx2) := by
+    refine ⟨fun l path h => (by cases h), fun n vs c => mkEnv_fn_asm st defs1 defs2 evalFuel ctx1 ctx2 n vs c, ?_⟩
+    intro n hq _
+    exact ⟨n, by rw [mkEnv_var]; exact evalVariable_asmBuiltin st defs1 ctx1 n hq,
+      by rw [mkEnv_var]; exact evalVariable_asmBuiltin st defs2 ctx2 n hq⟩
+  have hp : ProviderOK pureP := fun n _ => ⟨rfl, rfl⟩
+  have hc : CtxInv pureP {} := ⟨fun n _ => rfl, fun n l hl _ => by cases hl⟩
+  exact (eval_static pureP hp _ _ ag {} e hk hc).1
 
 end Casm
